@@ -16,9 +16,11 @@ state machine over the ordered multimap, with the exact return values and errors
 
 Not in this layer: buckets, sizes, versions (L2, `Model/BTreeFlush.lean`). `compact_buckets` does not
 change the abstract contents, so it has no step here.
-The callback used by the driver and the harness is `cbStop stop odd`: it counts its invocations,
-returns one `(key, id)` result per id (only odd ids when `odd`, which produces empty groups) and
-asks to stop at the `stop`-th invocation.
+The callback used by the driver and the harness is `cbStop stop (emit mode)`: it counts its
+invocations, asks to stop at the `stop`-th one, and returns per key either one `(key, id)` result
+per id (`all`), only the odd ids (`odd`, which produces empty groups), or the fixed two-element
+sequence `(key, n), (key, n + 1000)` with `n` the number of ids (`cnt`: an answer whose inner order
+does not depend on the posting order, so a reversal inside a group is visible).
 -/
 namespace AndaVerif
 namespace BTree
@@ -33,6 +35,10 @@ structure State where
 
 def init (unique : Bool) : State := { unique, map := [], insertCount := 0, deleteCount := 0, queryCount := 0 }
 
+inductive EmitMode where
+  | all | odd | cnt
+  deriving DecidableEq, Repr
+
 inductive Op where
   | insert (d : Nat) (k : Int)
   | remove (d : Nat) (k : Int)
@@ -42,7 +48,7 @@ inductive Op where
   | get (k : Int)
   | len
   | keys (cursor : Option Int) (limit : Option Nat)
-  | range (desc : Bool) (stop : Option Nat) (odd : Bool) (q : RQ Int)
+  | range (desc : Bool) (stop : Option Nat) (mode : EmitMode) (q : RQ Int)
   | stats
 
 inductive Out where
@@ -62,6 +68,7 @@ inductive Out where
   | keys (ks : List Int)
   | pairs (ps : List (Int × Nat))
   | stats (insertCount deleteCount queryCount len : Nat)
+  deriving DecidableEq, Repr
 
 /-- The range-query callback of the harness. State = number of invocations so far. -/
 def cbStop (stop : Option Nat) (g : Int → List Nat → List ρ) : OMap.Callback Nat ρ :=
@@ -72,8 +79,11 @@ def cbStop (stop : Option Nat) (g : Int → List Nat → List ρ) : OMap.Callbac
       | some n => decide (c + 1 < n)),
      g k p)
 
-def emit (odd : Bool) (k : Int) (p : List Nat) : List (Int × Nat) :=
-  (if odd then p.filter (fun d => d % 2 == 1) else p).map (fun d => (k, d))
+def emit (mode : EmitMode) (k : Int) (p : List Nat) : List (Int × Nat) :=
+  match mode with
+  | .all => p.map (fun d => (k, d))
+  | .odd => (p.filter (fun d => d % 2 == 1)).map (fun d => (k, d))
+  | .cnt => [(k, p.length), (k, p.length + 1000)]
 
 def hasOther (m : OMap) (d : Nat) (k : Int) : Bool :=
   match m.lookup k with
@@ -110,10 +120,9 @@ def insertArray (s : State) (d : Nat) (ks : List Int) : State × Out :=
   if ks.isEmpty then (s, .okN 0)
   else if s.unique && ks.any (hasOther s.map d) then (s, .errExists)
   else
-    match insertLoop s.unique d ks s.map 0 with
-    | (m', n, deferred) =>
-      let s' := { s with map := m', insertCount := s.insertCount + n }
-      if deferred then (s', .errExists) else (s', .okN n)
+    let r := insertLoop s.unique d ks s.map 0
+    let s' := { s with map := r.1, insertCount := s.insertCount + r.2.1 }
+    if r.2.2 then (s', .errExists) else (s', .okN r.2.1)
 
 def removeLoop (d : Nat) : List Int → OMap → Nat → OMap × Nat
   | [], m, n => (m, n)
@@ -123,21 +132,22 @@ def removeLoop (d : Nat) : List Int → OMap → Nat → OMap × Nat
     | none => removeLoop d ks m n
 
 def removeArrayCore (s : State) (d : Nat) (ks : List Int) : State × Nat :=
-  match removeLoop d ks s.map 0 with
-  | (m', n) => ({ s with map := m', deleteCount := s.deleteCount + n }, n)
+  let r := removeLoop d ks s.map 0
+  ({ s with map := r.1, deleteCount := s.deleteCount + r.2 }, r.2)
 
 def removeArray (s : State) (d : Nat) (ks : List Int) : State × Out :=
-  match removeArrayCore s d ks with
-  | (s', n) => (s', .n n)
+  let r := removeArrayCore s d ks
+  (r.1, .n r.2)
 
 def batchUpdate (s : State) (d : Nat) (old new : List Int) : State × Out :=
   let toInsert := new.eraseDups.filter (fun k => !old.contains k)
   let toRemove := old.eraseDups.filter (fun k => !new.contains k)
-  match (if toInsert.isEmpty then (s, Out.okN 0) else insertArray s d toInsert) with
-  | (s₁, .okN inserted) =>
-    (match (if toRemove.isEmpty then (s₁, 0) else removeArrayCore s₁ d toRemove) with
-     | (s₂, removed) => (s₂, .okPair removed inserted))
-  | (s₁, out) => (s₁, out)
+  let r₁ := if toInsert.isEmpty then (s, Out.okN 0) else insertArray s d toInsert
+  match r₁.2 with
+  | .okN inserted =>
+    let r₂ := if toRemove.isEmpty then (r₁.1, 0) else removeArrayCore r₁.1 d toRemove
+    (r₂.1, .okPair r₂.2 inserted)
+  | out => (r₁.1, out)
 
 def rangeCounts (s : State) (q : RQ Int) : Bool := !s.map.isEmpty && !(q.depth > RQ.maxDepth)
 
@@ -150,18 +160,17 @@ def step (s : State) : Op → State × Out
   | .get k => ({ s with queryCount := s.queryCount + 1 }, .posting (s.map.lookup k))
   | .len => (s, .n s.map.length)
   | .keys c l => (s, .keys (s.map.keysFrom c l))
-  | .range desc stop odd q =>
+  | .range desc stop mode q =>
     ({ s with queryCount := s.queryCount + (if rangeCounts s q then 1 else 0) },
-     .pairs (s.map.scan q desc (cbStop stop (emit odd)) 0))
+     .pairs (s.map.scan q desc (cbStop stop (emit mode)) 0))
   | .stats => (s, .stats s.insertCount s.deleteCount s.queryCount s.map.length)
 
 def run (s : State) : List Op → State × List Out
   | [] => (s, [])
   | op :: ops =>
-    match step s op with
-    | (s', o) =>
-      match run s' ops with
-      | (s'', os) => (s'', o :: os)
+    let r := step s op
+    let r' := run r.1 ops
+    (r'.1, r.2 :: r'.2)
 
 end BTree
 end AndaVerif
